@@ -260,6 +260,8 @@ def list_op_spec(cur, op, args):
             new.extend(args[0])
         elif op == "iadd":
             new += args[0]
+        elif op == "iadd_self":
+            new += new
         elif op == "imul":
             new *= args[0]
         elif op == "pop":
@@ -391,6 +393,9 @@ def live_list_op(m, obj, attr, op, args):
         # the real augmented assignment: o.attr += [...]  (getattr, __iadd__, setattr)
         L += [g(x) for x in args[0]]
         setattr(o, attr, L)
+    elif op == "iadd_self":
+        L += L
+        setattr(o, attr, L)
     elif op == "imul":
         L *= args[0]
         setattr(o, attr, L)
@@ -478,7 +483,8 @@ def W1():
     add(w, "s1", "UsageJourneyStep", user_time_spent=Q(20, "minute"), jobs=lst("j1"))
     add(w, "s2", "UsageJourneyStep", user_time_spent=Q(70, "minute"), jobs=lst("j2", "j1"))
     add(w, "s3", "UsageJourneyStep", user_time_spent=Q(5, "minute"), jobs=lst("j3"))
-    add(w, "uj", "UsageJourney", uj_steps=lst("s1", "s2"))
+    add(w, "s0", "UsageJourneyStep", user_time_spent=Q(2, "minute"), jobs=lst())     # a step without any job
+    add(w, "uj", "UsageJourney", uj_steps=lst("s1", "s2", "s0"))
     add(w, "uj_b", "UsageJourney", uj_steps=lst("s3"))
     add(w, "nw", "Network")
     add(w, "nw_b", "Network", bandwidth_energy_intensity=Q(0.2, "kilowatt_hour / gigabyte"))
